@@ -216,7 +216,7 @@ func init() {
 	// C01 is a statement about the server: the second mode drives real Modify streams (held
 	// operations released by later ones, several sessions) and folds the acknowledgements the
 	// streams carried, in the order they carried them
-	props["C01"] = &PropSpec{Mode: "rib", Extra: []string{"srv.answers"}, Diffs: append(append([]string{}, ribDiffs...), "msg.resps", "msg.not-accepted"), Monitors: []string{"c01"}}
+	props["C01"] = &PropSpec{Mode: "rib", Extra: []string{"srv.answers", "gap"}, Diffs: append(append([]string{}, ribDiffs...), "msg.resps", "msg.not-accepted"), Monitors: []string{"c01"}}
 	// "gap": the same judgement with a second writer let in at every point where AddEntry / DeleteEntry pause (the property quantifies over histories, and two sessions make histories that one cannot)
 	props["C02"] = &PropSpec{Mode: "rib", Extra: []string{"gap"}, Diffs: []string{"add.", "pend"}, Monitors: []string{"c02"}}
 	props["C03"] = &PropSpec{Mode: "rib", Extra: []string{"gap"}, Diffs: []string{"refs", "del."}, Monitors: []string{"c03"}}
